@@ -358,6 +358,7 @@ def evaluate(case):
         persistent = [j for j in idxs if isinstance(pre[j], kd.MultiVector)]     # derived first-level values are not dragged
         model = {j: dict(zip(pre[j].keys(), [float(v) for v in pre[j].values()])) for j in persistent}
         ids = {j: id(pre[j]) for j in persistent}
+        containers = {j: pre[j].values() for j in persistent}       # the coefficient list / ndarray the user handed over
         cidx = {k: i for i, k in enumerate(ref.canon_keys)}
         for step in case["steps"]:
             if step["k"] == "update":
@@ -397,6 +398,9 @@ def evaluate(case):
                 obj = pre[j]
                 if id(obj) != ids[j] or (sc.subjects[j] is not obj):
                     raise Violation("drag", "in-place", f"subject {j} was replaced instead of being updated in place")
+                if obj.values() is not containers[j]:
+                    raise Violation("drag", "in-place", f"the coefficient container ({type(containers[j]).__name__}) of subject {j} was replaced by a new "
+                                    f"{type(obj.values()).__name__} instead of being overwritten in place (anything sharing the original storage no longer follows)")
                 cur = dict(zip(obj.keys(), [float(v) for v in obj.values()]))
                 if cur != model[j]:
                     raise Violation("drag", "write-back", f"after dragging subject(s) {moved} with canonical-order values "
